@@ -8,6 +8,8 @@ import shutil
 import time
 
 import extract_parser
+import gen_build_tree
+import kani_run
 import weave
 import witness
 from common import VERIF, REPO, scratch, Undecided, write_evidence, write_replay, load_known_findings, finish, norm, seed
@@ -165,6 +167,24 @@ def deep_probe(tier):
     return None, ran
 
 
+BT_QUICK = [('empty_file', 2), ('fn_1', 2), ('generic_1', 2), ('fn_name_2', 3), ('error_then_fn_2', 3), ('adt_variant_2', 3)]
+BT_THOROUGH = [('empty_file', 3), ('fn_1', 3), ('generic_1', 3), ('fn_name_2', 4), ('error_then_fn_2', 4), ('adt_variant_2', 4),
+               ('const_nested_2', 4), ('wrapped_3', 4), ('wrapped_3', 5)]
+
+
+def run_tree_builder(tier):
+    """C01-B / C01-C: bounded Kani checks of the real build_tree (stubbed rowan builder) and of the
+    contracts of Parser::nth / Parser::error that the Verus unit assumes."""
+    d = os.path.join(scratch(), 'syntax_kani')
+    pairs = BT_QUICK if tier == 'quick' else BT_THOROUGH
+    text, names = gen_build_tree.generate(open(os.path.join(VERIF, 'kani/parser/build_tree.rs.in')).read(), pairs)
+    gen = os.path.join(scratch(), 'build_tree_gen.rs')
+    open(gen, 'w').write(text)
+    kani_run.standalone_syntax_crate(REPO, d, [gen, os.path.join(VERIF, 'kani/parser/nth_error.rs')])
+    names += ['parser::verif_kani::nth_contract', 'parser::verif_kani::error_contract']
+    return kani_run.run_many(d, names, ('-Z', 'stubbing'), 3000, jobs=len(names)), pairs
+
+
 def main(prop, tier):
     t0 = time.time()
     sd = scratch()
@@ -186,12 +206,14 @@ def main(prop, tier):
         fut_reach = pool.submit(run_reach, ex, fns, text, os.path.join(sd, 'reach'))
         fut_can = [pool.submit(run_canary, c, i) for i, c in enumerate(canaries)]
         fut_drv = pool.submit(witness.build_driver) if want_driver else None
+        fut_bt = pool.submit(run_tree_builder, tier) if prop == 'C01' else None
         try:
             res = fut_main.result()
             reach = fut_reach.result()
             can = [f.result() for f in fut_can]
             if fut_drv:
                 fut_drv.result()
+            bt = fut_bt.result() if fut_bt else None
         except Undecided as e:
             return undecided(prop, tier, t0, str(e))
 
@@ -255,6 +277,32 @@ def main(prop, tier):
     except Undecided as e:
         return undecided(prop, tier, t0, str(e))
 
+    # ---- tree builder (Kani, bounded)
+    bt_undecided = []
+    if bt:
+        results, pairs = bt
+        for r in results:
+            entry = {'what': 'Kani: %s' % r['harness'].split('::')[-1], 'status': r['status'], 'checks': r.get('n_checks'),
+                     'covers': r['covers'], 'cbmc_s': r.get('cbmc_s'),
+                     'bound': ('real Parser::build_tree, rowan builder stubbed by recording stubs; N raw one-byte tokens with symbolic kinds over {WHITESPACE, COMMENT, COMMENT_STATEMENT, COMMENT_MODULE, IDENT}, one enumerated event shape'
+                               if 'build_tree' in r['harness'] else 'token vector of length <= 3, everything else symbolic')}
+            bounded.append(entry)
+            if r['status'] in ('ERROR', 'TIMEOUT'):
+                bt_undecided.append(r['harness'])
+            elif r['status'] == 'FAILED':
+                w = None
+                try:
+                    w, _n = witness.enumerate_inputs(3, 240, seed())
+                except Undecided:
+                    w = None
+                for fcheck in r['failed_checks']:
+                    path = write_replay(prop, 'parser_kani :: %s :: %s' % (r['harness'].split('::')[-1], fcheck['description']),
+                                        'crates/syntax/src/parser.rs (Parser::build_tree)' if 'build_tree' in r['harness'] else 'crates/syntax/src/parser.rs (Parser::nth / Parser::error)',
+                                        'kani 0.68.0 / cbmc 6.11', json.dumps(fcheck), w, './check %s --replay <this file>' % prop)
+                    violations.append((path, w is not None))
+            elif r['covers'] and r['covers'][0] != r['covers'][1]:
+                guard_problems.append('%s: cover not satisfied' % r['harness'])
+
     # ---- violations from the verifier
     real = [f for f in mine if f not in needs_contract]
     if real:
@@ -306,6 +354,8 @@ def main(prop, tier):
     write_evidence(prop, tier, 'proof', cov,
                    ['see coverage.trusted_base'], wall, len(violations),
                    {'known_findings_matched': known_lines})
+    if bt_undecided and not violations:
+        finish(prop, [], known_lines, 'bounded tree-builder harness(es) not decided by Kani (timeout / CBMC error): %s' % bt_undecided)
     if guard_problems:
         finish(prop, [], known_lines, 'vacuity/assumption guard failed: ' + '; '.join(guard_problems))
     if needs_contract and not violations:
